@@ -4,6 +4,11 @@ JUDGE = "Judge.C09"
 DRIVER = "c09"
 SHARD = 60
 
+# a panic in mosdns code (not in the harness) during the scripted runs is a failing history of this property
+CRASH_VIOLATION = [
+    (r"panic: [^\n]*\n(?:[^\n]*\n){0,60}?[^\n]*IrineSistiana/mosdns/v5/pkg/upstream", "the code under test panicked (the property says no counter underflows or panics)"),
+]
+
 
 def driver_args(tier, seed, phase):
     a = []
